@@ -90,7 +90,9 @@ func sdsNeedsPush(forced bool, updates model.XdsUpdates) bool {
 // Invalid resource names are ignored
 func (s *SecretGen) parseResources(names []string, proxy *model.Proxy) []SecretResource {
 	res := make([]SecretResource, 0, len(names))
-	pkpConf := (*mesh.ProxyConfig)(proxy.Metadata.ProxyConfig).GetPrivateKeyProvider()
+	// Must be the same provider toEnvoyTLSSecret encodes the key with, or the cached encoding would
+	// depend on which proxy asked first.
+	pkpConf := proxy.Metadata.ProxyConfigOrDefault(s.meshConfig.GetDefaultConfig()).GetPrivateKeyProvider()
 	pkpConfHashStr := ""
 	if pkpConf != nil {
 		pkpConfHashStr = strconv.FormatUint(xxhashv2.Sum64String(pkpConf.String()), 10)
